@@ -779,3 +779,38 @@ pub fn c06_withhold_strategy(transports: BoxedStrategy<Transport>) -> BoxedStrat
         })
         .boxed()
 }
+
+// ------------------------------------------------------------------------------------------
+// C04 through a real connection: `respond()` incl. the HEAD rule and the request's TE header
+
+pub fn c04_conn_strategy(transports: BoxedStrategy<Transport>) -> BoxedStrategy<ConvCase> {
+    let te = proptest::option::weighted(0.4, proptest::sample::select(vec!["chunked", "identity", "trailers", "chunked;q=0.5, identity;q=0.4", "identity;q=0.9, chunked;q=0.1", "gzip, chunked", "chunked;q=0"]).prop_map(|s| s.to_string()));
+    let one = (
+        proptest::bool::weighted(0.3),
+        version_strategy(),
+        te,
+        crate::resp::status_strategy(),
+        len_strategy(70_000),
+        proptest::bool::weighted(0.7),
+        proptest::option::weighted(0.4, prop_oneof![Just(0usize), Just(1usize), Just(usize::MAX), Just(1024usize)]),
+    );
+    (proptest::collection::vec(one, 1..=3), transports)
+        .prop_map(|(items, transport)| {
+            let n = items.len();
+            let mut conv = Conversation::default();
+            let mut progs = vec![];
+            for (i, (head, version, te, status, body_len, declared, threshold)) in items.into_iter().enumerate() {
+                let last = i + 1 == n;
+                let mut hs = vec![Hdr::new("Host", "h")];
+                if let Some(t) = te {
+                    hs.push(Hdr::new("TE", &t));
+                }
+                let conn = keepalive_for(version, last);
+                conv.reqs.push(build_req(i as u32, if head { "HEAD".into() } else { "GET".into() }, String::new(), version, hs, Framing::None, None, 0, 0, conn, false));
+                progs.push(Prog { read: ReadPlan::None, finish: Finish::Respond { status, body_len, declared, threshold } });
+            }
+            let total = total_len(&conv);
+            ConvCase { conv, progs, script: vec![Step::Send { from: 0, to: total }, Step::HalfClose], transport }
+        })
+        .boxed()
+}
